@@ -752,13 +752,24 @@ impl<TStdlib: Stdlib, TStdIn: Input, TStdOut: Printer, TLpt1: Printer>
     /// Pops the address of the most recent GOSUB of the current subprogram call
     /// (or of the main module) that has not been returned from.
     fn pop_go_sub_address(&mut self) -> Option<usize> {
-        let floor = self
-            .nesting_bases
-            .iter()
-            .rev()
-            .find(|base| base.kind == NestingKind::Call)
-            .map(|base| base.go_subs)
-            .unwrap_or(0);
+        // an error handler is code of the main module: when it interrupted a subprogram,
+        // the GOSUBs of that subprogram are not its to return from
+        let mut floor = 0;
+        for (index, base) in self.nesting_bases.iter().enumerate().rev() {
+            let stops = match base.kind {
+                NestingKind::Call => true,
+                // (the first base is the main module's)
+                NestingKind::Handler => self.nesting_bases[..index]
+                    .iter()
+                    .skip(1)
+                    .any(|below| below.kind == NestingKind::Call),
+                _ => false,
+            };
+            if stops {
+                floor = base.go_subs;
+                break;
+            }
+        }
         if self.go_sub_address_stack.len() > floor {
             self.go_sub_address_stack.pop()
         } else {
